@@ -187,7 +187,7 @@ int assignnodes(int ndim, struct vf_seq_int* factors, struct vf_seq_int* dims)
 #define ISFREE(i) ((i) < ndims && ODIM(i) == 0)
 #define ANYFREE (ISFREE(0) || ISFREE(1) || ISFREE(2) || ISFREE(3))
 #define DIM_DOMAIN(i) (-MAXN <= g_c[i] && g_c[i] <= MAXN)
-int Topo_Cart__Dims_create(struct Topo_Cart* self, int nnodes, int ndims, int* dims)
+int Topo_Cart__Dims_create(int nnodes, int ndims, int* dims) /* static member: no self */
     __CPROVER_requires(dims == g_c && 1 <= nnodes && nnodes <= MAXN && 1 <= ndims && ndims <= ND && ALL4(DIM_DOMAIN) &&
                        vf_exc == 0)
     __CPROVER_assigns(__CPROVER_object_whole(g_c))
@@ -307,7 +307,7 @@ void harness(void)
 {
   setup();
   set_ndims(0);
-  Topo_Cart__Dims_create(&g_t, nondet_int(), nondet_int(), g_c);
+  Topo_Cart__Dims_create(nondet_int(), nondet_int(), g_c);
   VF_CANARY_POINT;
 }
 #endif
